@@ -12,6 +12,7 @@
 -/
 import IcingaProofs.C18.Lemmas
 import IcingaProofs.C18.Lookup
+import IcingaProofs.C18.Mask
 import IcingaProofs.Gen.Permissions
 
 namespace Icinga.C18
@@ -666,5 +667,271 @@ theorem entry_point_permissions_match_source :
 
 example : permissionTableOk ["objects/query/<>", "objects/modify/<>", "objects/delete/<>", "actions/<>", "templates/query/<>",
     "variables", "types", "status/query", "console", "config/query", "config/modify", "debug"] = false := by decide
+
+/-! ### Round 4: raw permission patterns, every registered handler, whole traces -/
+
+/-- **raw_mask_match_spec.**  `tokenize` + the matcher decide exactly the declarative language of RAW masks: `\*` and `\?`
+    stand for the characters `*` and `?`, `*` for any text, `?` for one character, every other character — a lone `\`
+    included — for itself up to ASCII case.  (`wildcard_match_spec` spoke of token lists only.) -/
+theorem raw_mask_match_spec (m s : List Char) : matchToks (tokenize m) s = true ↔ DenotesMask m s :=
+  ⟨fun h => mask_of_denotes_tokenize m s (matchToks_sound _ _ h), fun h => matchToks_complete (denotes_tokenize_of_mask h)⟩
+
+/-- **permission_pattern_spec.**  A permission entry matches a required permission iff the lower-cased required permission is
+    in the language of the lower-cased pattern. -/
+theorem permission_pattern_spec (pattern required : String) :
+    wildMatch pattern required = true ↔ DenotesMask (lower pattern) (lower required) :=
+  raw_mask_match_spec _ _
+
+/-- **has_permission_iff_pattern_denotes.**  HasPermission grants a non-empty required permission iff the language of
+    some entry's pattern contains it — the property's "one of the user's permissions matches the permission the request
+    requires (case-insensitively, with wildcards)", with nothing of the matcher left in the statement. -/
+theorem has_permission_iff_pattern_denotes (u : User) (perm : String) (hperm : perm ≠ "") :
+    hasPermission u perm = true ↔ ∃ p ∈ u, DenotesMask (lower p.pattern) (lower perm) := by
+  rw [hasPermission_of_ne hperm, someMatch, List.any_eq_true]
+  constructor
+  · rintro ⟨p, hp, hw⟩; exact ⟨p, hp, (permission_pattern_spec _ _).1 hw⟩
+  · rintro ⟨p, hp, hd⟩; exact ⟨p, hp, (permission_pattern_spec _ _).2 hd⟩
+
+/-- the escapes: `objects/\*` grants the permission literally called `objects/*` and nothing else; a lone `\` is a
+    character; and the declarative language is not everything -/
+example : DenotesMask "objects/\\*".toList "objects/*".toList := (raw_mask_match_spec _ _).1 (by decide)
+example : ¬ DenotesMask "objects/\\*".toList "objects/query".toList := fun h => absurd ((raw_mask_match_spec _ _).2 h) (by decide)
+example : DenotesMask "a\\b?".toList "A\\Bx".toList := (raw_mask_match_spec _ _).1 (by decide)
+example : hasPermission [⟨"Objects/*/host", none⟩] "objects/query/Host" = true ∧
+    hasPermission [⟨"objects/\\*/host", none⟩] "objects/query/Host" = false := by decide
+
+/-- **every_url_handler_checks_its_permission.**  In the table regenerated from `/repo/lib` on every run, every class
+    registered with REGISTER_URLHANDLER has `Handle*` method bodies, every such method that handles a request itself (does
+    not just dispatch to HandleGet/HandlePost/HandleDelete) contains a permission check — InfoHandler, which only shows the
+    user's own permissions, excepted —, no check asks for the empty permission, each handler class asks for the permission
+    the model assumes for it (objects/create/<> in CreateObjectHandler, config/modify in both config handlers that write,
+    …), and a handler class unknown to the model checks something. -/
+theorem every_url_handler_checks_its_permission :
+    handlerTableOk Gen.urlHandlers Gen.urlHandlerChecks = true := by decide
+
+/-- not vacuous: losing the check of CreateObjectHandler, of one verb of a config handler, the body of a registered class,
+    or a new handler without any check fails; a new handler with a permission of its own and a reordered table pass -/
+example : handlerTableOk Gen.urlHandlers
+    (Gen.urlHandlerChecks.map fun r => if r.1 == "CreateObjectHandler" then (r.1, r.2.1, [], r.2.2.2) else r) = false := by decide
+example : handlerTableOk Gen.urlHandlers
+    (Gen.urlHandlerChecks.map fun r => if r.1 == "ConfigStagesHandler" && r.2.1 == "HandlePost" then (r.1, r.2.1, [], false) else r)
+    = false := by decide
+example : handlerTableOk Gen.urlHandlers
+    (Gen.urlHandlerChecks.map fun r => if r.1 == "ConfigFilesHandler" then (r.1, r.2.1, ["config/modify"], false) else r)
+    = false := by decide
+example : handlerTableOk Gen.urlHandlers (Gen.urlHandlerChecks.filter (·.1 != "EventsHandler")) = false := by decide
+example : handlerTableOk ("PingHandler" :: Gen.urlHandlers) (("PingHandler", "HandleRequest", [], false) :: Gen.urlHandlerChecks)
+    = false := by decide
+example : handlerTableOk ("PingHandler" :: Gen.urlHandlers)
+    (Gen.urlHandlerChecks.reverse ++ [("PingHandler", "HandleRequest", ["ping"], false)]) = true := by decide
+
+/-- **model_request_meets_spec.**  One request of ANY entry point — GetFilterTargets itself, the object handlers, an action
+    with any type list, the objects a modify request changes, the by-name lookup of execute-command, a joined object, the
+    per-object decision, a bare check — against any user and inventory satisfies the property. -/
+theorem model_request_meets_spec (u : User) (inv : Inventory) (r : Request) :
+    specRequest u inv r (runRequest u inv r) = none := by
+  cases r with
+  | targets qd q => exact model_query_meets_spec u qd q inv
+  | object verb type pn q => exact model_query_meets_spec u (handlerQD verb type) (handlerQuery type pn q) inv
+  | action name types q => exact model_query_meets_spec u (actionQDT name types) q inv
+  | modify type pn q =>
+    obtain ⟨hall, hspec⟩ := modify_changes_subset_allowed u type pn q inv
+    have h1 : ((modifyChanged u type pn q inv).any fun o => !inv.contains o) = false := by
+      simp only [List.any_eq_false]
+      intro o ho
+      simp [(hall o ho).2]
+    simp only [specRequest, runRequest, h1, Bool.false_eq_true, if_false]
+    exact hspec
+  | lookup t n => exact model_lookup_meets_spec u t n inv
+  | join j =>
+    simp only [specRequest, runRequest]
+    cases hj : joinIncluded u j with
+    | false => simp [specJoin]
+    | true => exact (joined_objects_allowed u j hj).2
+  | access perm o => exact model_access_meets_spec u perm o
+  | bare perm => exact model_grant_meets_spec u perm
+
+/-- **model_trace_meets_spec** (whole-trace theorem).  For every initial user and inventory and every sequence of
+    operations — requests of every entry point interleaved with arbitrary changes of the user's permission list
+    (`permissions` modified at runtime, the ApiUser deleted and re-created) and of the registry —, every answer satisfies
+    the property with respect to the user and the inventory AS THEY ARE WHEN THE REQUEST ARRIVES: nothing granted to an
+    earlier list survives its revocation, no filter of an earlier list is applied in place of the current one. -/
+theorem model_trace_meets_spec (w : World) (ops : List Op) : specTrace (runTrace w ops) = none := by
+  induction ops generalizing w with
+  | nil => rfl
+  | cons op ops ih =>
+    cases op with
+    | setUser u => exact ih _
+    | setInventory i => exact ih _
+    | request r =>
+      have hr := model_request_meets_spec w.user w.inv r
+      have ht := ih w
+      unfold specTrace at ht ⊢
+      simp only [runTrace, List.findSome?_cons, hr]
+      exact ht
+
+def trU1 : User := [⟨"objects/query/Host", none⟩, ⟨"status/query", none⟩]
+def trU2 : User := [⟨"status/query", none⟩, ⟨"objects/query/*", some (fun _ o => some (o.name == "h1"))⟩]
+def trU3 : User := [⟨"objects/query/Service", none⟩, ⟨"status/query", none⟩]
+def trReq : Request := .object "query" "Host" none {}
+def trOut : Response → Option (List Obj)
+  | .targets (.ok l) _ => some l
+  | _ => none
+
+/-- a non-trivial trace: all hosts, then — the permission list replaced — only the host the new filter allows, then — the
+    permission revoked — a rejection, then — a host deleted from the registry — … -/
+example : (runTrace ⟨trU1, exInv⟩ [.request trReq, .setUser trU2, .request trReq, .setUser trU3, .request trReq,
+      .setUser trU1, .setInventory [exH1], .request trReq]).map (fun e => trOut e.response)
+    = [some [exH0, exH1], some [exH1], none, some [exH1]] := by decide
+
+/-- the trace clause is not vacuous: an answer computed from the permission list as it WAS (match positions or verdicts
+    remembered from an earlier request) is rejected — a revoked permission that is still granted, a filter that is no longer
+    applied —, and so is an answer of the wrong shape -/
+example : specTrace [⟨⟨trU1, exInv⟩, trReq, runRequest trU1 exInv trReq⟩, ⟨⟨trU3, exInv⟩, trReq, runRequest trU1 exInv trReq⟩]
+      = some .rejectedFirst ∧
+    specTrace [⟨⟨trU2, exInv⟩, trReq, runRequest trU1 exInv trReq⟩] = some .returnedAllowed ∧
+    specTrace [⟨⟨trU1, exInv⟩, trReq, .granted true⟩] = some .responseShape := by decide
+
+/-! ### Round 4: secondary objects — cascading delete and schedule-downtime with all_services (finding F-C18c)
+
+  Full statement (NOT a theorem of the code as it is):
+    `∀ u type pn q inv deps cascade, specActed u ("objects/delete/" ++ type) deps targets (deleteGone … cascade) = none`
+    `∀ u types q inv deps,           specActed u "actions/schedule-downtime" deps targets (downtimeActed …) = none`
+  — every object a request deletes / schedules a downtime for is one the user is allowed to act on.  The code deletes the
+  dependents of a target (cascade) and schedules downtimes for the services of a target host (all_services) without
+  consulting the user's permissions or the filter for them. -/
+
+/-- every object acted on is allowed ⇒ the clause holds, whatever the targets are -/
+theorem specActed_of_all_allowed {u : User} {perm : String} {deps : Obj → List Obj} {targets acted : List Obj}
+    (hall : ∀ o ∈ acted, Allowed u perm o) : specActed u perm deps targets acted = none := by
+  unfold specActed
+  by_cases hperm : perm = ""
+  · simp [hperm]
+  · have hne : (perm == "") = false := by simp [hperm]
+    simp only [hne, Bool.false_eq_true, if_false]
+    have h1 : ∀ (g : Obj → Bool), (acted.any fun o => g o && !allowedB u perm o) = false := by
+      intro g
+      simp only [List.any_eq_false]
+      intro o ho
+      simp [(allowedB_iff u perm o).2 (hall o ho)]
+    cases hm : someMatch u perm with
+    | true => simp only [Bool.not_true, Bool.false_eq_true, if_false, h1]
+    | false =>
+      cases hc : acted with
+      | nil => simp
+      | cons o rest =>
+        exfalso
+        obtain ⟨p, hp, hw, _⟩ := hall o (by simp [hc])
+        have : someMatch u perm = true := by
+          simp only [someMatch, List.any_eq_true]
+          exact ⟨p, hp, hw⟩
+        rw [hm] at this
+        cases this
+
+/-- **delete_without_cascade_gone_allowed.**  Without `cascade` a delete request on API-created objects removes only
+    objects that are allowed under `objects/delete/<Type>` and registered — for every user, query, inventory and dependency
+    relation; in particular nothing when no entry matches. -/
+theorem delete_without_cascade_gone_allowed (u : User) (type : String) (pathName : Option String) (q : Query)
+    (inv : Inventory) (deps : Obj → List Obj) (targets : List Obj) :
+    (∀ o ∈ deleteGone u type pathName q inv deps false, Allowed u ("objects/delete/" ++ type) o ∧ o ∈ inv) ∧
+    specActed u ("objects/delete/" ++ type) deps targets (deleteGone u type pathName q inv deps false) = none := by
+  have hall : ∀ o ∈ deleteGone u type pathName q inv deps false, Allowed u ("objects/delete/" ++ type) o ∧ o ∈ inv := by
+    intro o ho
+    unfold deleteGone at ho
+    cases hr : handlerTargets u "delete" type pathName q inv with
+    | error e => simp [hr] at ho
+    | ok objs =>
+      simp only [hr, Bool.false_eq_true, if_false] at ho
+      exact handler_targets_subset_allowed u "delete" type pathName q inv objs hr o (List.mem_filter.1 ho).1
+  exact ⟨hall, specActed_of_all_allowed fun o ho => (hall o ho).1⟩
+
+/-- **secondary_objects_partial.**  With `cascade` / `all_services` the statement holds exactly as far as the dependents of
+    every allowed object are allowed themselves (e.g. a filter over `host.*` only, or no filter at all). -/
+theorem secondary_objects_partial (u : User) (type : String) (pathName : Option String) (q : Query) (types : List String)
+    (inv : Inventory) (deps : Obj → List Obj) (cascade : Bool) (targets : List Obj)
+    (hdel : ∀ o, Allowed u ("objects/delete/" ++ type) o → ∀ s ∈ deps o, Allowed u ("objects/delete/" ++ type) s)
+    (hdt : ∀ o, Allowed u "actions/schedule-downtime" o → ∀ s ∈ deps o, Allowed u "actions/schedule-downtime" s) :
+    specActed u ("objects/delete/" ++ type) deps targets (deleteGone u type pathName q inv deps cascade) = none ∧
+    specActed u "actions/schedule-downtime" deps targets (downtimeActed u types q inv deps) = none := by
+  constructor
+  · apply specActed_of_all_allowed
+    intro o ho
+    unfold deleteGone at ho
+    cases hr : handlerTargets u "delete" type pathName q inv with
+    | error e => simp [hr] at ho
+    | ok objs =>
+      simp only [hr] at ho
+      have hsub := handler_targets_subset_allowed u "delete" type pathName q inv objs hr
+      cases cascade with
+      | false =>
+        simp only [Bool.false_eq_true, if_false] at ho
+        exact (hsub o (List.mem_filter.1 ho).1).1
+      | true =>
+        simp only [if_true, List.mem_flatMap, List.mem_cons] at ho
+        obtain ⟨t, ht, rfl | hs⟩ := ho
+        · exact (hsub _ ht).1
+        · exact hdel t (hsub t ht).1 o hs
+  · apply specActed_of_all_allowed
+    intro o ho
+    unfold downtimeActed at ho
+    cases hr : (filterTargets u (actionQDT "schedule-downtime" types) q inv).result with
+    | error e => simp [hr] at ho
+    | ok objs =>
+      simp only [hr, List.mem_flatMap, List.mem_cons] at ho
+      have hsub := action_targets_subset_allowed u "schedule-downtime" types q inv objs hr
+      obtain ⟨t, ht, rfl | hs⟩ := ho
+      · exact (hsub _ ht).1
+      · exact hdt t (hsub t ht).1 o hs
+
+def secInv : Inventory := [⟨"Host", "h1"⟩, ⟨"Service", "h1!s0"⟩, ⟨"Service", "h1!s1"⟩]
+def secDeps (o : Obj) : List Obj := if o == ⟨"Host", "h1"⟩ then [⟨"Service", "h1!s0"⟩, ⟨"Service", "h1!s1"⟩] else []
+/-- may delete / schedule downtimes for everything except the service h1!s0 -/
+def secUser : User :=
+  [⟨"objects/delete/*", some (fun _ o => some (o.name != "h1!s0"))⟩, ⟨"actions/*", some (fun _ o => some (o.name != "h1!s0"))⟩]
+
+/-- **secondary_objects_counterexample** (F-C18c).  The user's filter excludes the service h1!s0; DELETE
+    /v1/objects/hosts/h1?cascade=1 deletes it and schedule-downtime on h1 with all_services=1 gives it a downtime all the
+    same; by its own name the service is refused (`forbidden_single_name_is_denied`), and without cascade nothing goes. -/
+theorem secondary_objects_counterexample :
+    deleteGone secUser "Host" (some "h1") {} secInv secDeps true = secInv ∧
+    specActed secUser "objects/delete/Host" secDeps [⟨"Host", "h1"⟩] (deleteGone secUser "Host" (some "h1") {} secInv secDeps true)
+      = some .secondaryAllowed ∧
+    downtimeActed secUser ["Host", "Service"] (actionQuery "Host" (some "h1") {}) secInv secDeps = secInv ∧
+    specActed secUser "actions/schedule-downtime" secDeps [⟨"Host", "h1"⟩]
+      (downtimeActed secUser ["Host", "Service"] (actionQuery "Host" (some "h1") {}) secInv secDeps) = some .secondaryAllowed ∧
+    isRejected (filterTargets secUser (actionQDT "schedule-downtime" ["Host", "Service"]) (actionQuery "Service" (some "h1!s0") {}) secInv).result
+      = true ∧
+    deleteGone secUser "Host" (some "h1") {} secInv secDeps false = [] := by decide
+
+/-- the hypotheses of `secondary_objects_partial` are satisfiable with a filter that really filters (it excludes another host), and the clause also rejects a forbidden TARGET, a forbidden object that
+    is no dependent of any target (both under `changed_objects_allowed`) and any action without a matching entry -/
+example :
+    let u : User := [⟨"objects/delete/*", some (fun _ o => some (o.name != "h2"))⟩]
+    deleteGone u "Host" none {} (⟨"Host", "h2"⟩ :: secInv) secDeps true = secInv ∧
+    specActed u "objects/delete/Host" secDeps [⟨"Host", "h1"⟩] secInv = none ∧
+    specActed u "objects/delete/Host" secDeps [⟨"Host", "h2"⟩] [⟨"Host", "h2"⟩] = some .changedAllowed ∧
+    specActed secUser "objects/delete/Host" secDeps [⟨"Host", "h2"⟩] secInv = some .changedAllowed ∧
+    specActed [⟨"objects/query/*", none⟩] "objects/delete/Host" secDeps [] [⟨"Host", "h1"⟩] = some .rejectedFirst := by decide
+
+/-- **connection_user_only_with_verified_cn.**  A connection carries user U only if the client certificate was verified and
+    its CN is U's `client_cn`; an unverified peer gets no user whatever identity it claims — for every user inventory. -/
+theorem connection_user_only_with_verified_cn (users : List AUser) (identity : String) (authenticated : Bool) :
+    (∀ u ∈ connUser users identity authenticated, authenticated = true ∧ u ∈ users ∧ u.clientCN = identity ∧
+      specConnUser identity authenticated (some u) = none) ∧
+    connUser users identity false = [] := by
+  refine ⟨?_, rfl⟩
+  intro u hu
+  cases authenticated with
+  | false => simp [connUser] at hu
+  | true =>
+    simp only [connUser, if_true] at hu
+    obtain ⟨h1, h2⟩ := authenticate_cn_only_with_cn users identity u hu
+    exact ⟨rfl, h1, h2, by simp [specConnUser, h2]⟩
+
+/-- satisfiable and not vacuous: a verified CN yields its users, the same CN unverified nobody; the clause rejects a user
+    carried by an unverified connection and a user of another CN -/
+example : connUser exUsers "cn1" true = [⟨"agent", "", "cn1"⟩, ⟨"web", "a:b", "cn1"⟩] ∧ connUser exUsers "cn1" false = [] ∧
+    specConnUser "cn1" false (some ⟨"agent", "", "cn1"⟩) = some .attributedWithoutCredential ∧
+    specConnUser "cn2" true (some ⟨"agent", "", "cn1"⟩) = some .attributedWithoutCredential := by decide
 
 end Icinga.C18
